@@ -437,10 +437,10 @@ func runE2E(seed int64, nscen int, out string) {
 		}
 	}
 	// SETBIT on a bitmap stored in the old (string) format converts it: every old bit must survive
-	// (local_deletion only: under wait_compact the conversion stores the segments under the unversioned key
-	// and with the value header inside, so the old bits are lost on the unchanged tree — reported, it is a
-	// within-key data-mapping matter of C08/C10, not judged here)
-	bitConvertScenario(seed, "local", enc)
+	// (both policies: the conversion under wait_compact was repaired in the repository, bcbd73e)
+	for _, policy := range []string{"local", "compact"} {
+		bitConvertScenario(seed, policy, enc)
+	}
 	// background compaction under wait_compact over same-named collections of different types
 	ncp := nscen / 4
 	if ncp < 3 {
@@ -581,6 +581,11 @@ func scenario(seed int64, policy string, idx int, emit func(e2eRec)) {
 		}
 		variant := r.Pick(4)
 		wholeTable := r.Chance(0.08) && dataTypesOfTableDelete[c.Typ]
+		cntBefore := e.counters(tabs)
+		if r.Chance(0.12) {
+			e.msetAcrossTables(tabs, op, &rec, before, logBefore, emit)
+			continue
+		}
 		if (c.Typ == "hash" || c.Typ == "set" || c.Typ == "zset") && r.Chance(0.15) {
 			e.rejectedWrite(c, op, &rec, before, logBefore, emit)
 			continue
@@ -769,6 +774,16 @@ func scenario(seed int64, policy string, idx int, emit func(e2eRec)) {
 			delete(e.score, t)
 		}
 		rec.Logical = append(rec.Logical, e.lentCheck()...)
+		// the key counter of a table no target belongs to is an observable of that table: it must not move
+		touched := map[string]bool{}
+		for _, t := range targets {
+			touched[t.Table] = true
+		}
+		for tb, n := range e.counters(tabs) {
+			if !touched[tb] && n != cntBefore[tb] {
+				rec.Logical = append(rec.Logical, fmt.Sprintf("%s on %v changed the key counter of table %s from %d to %d", rec.Op, rec.Targets, H([]byte(tb)), cntBefore[tb], n))
+			}
+		}
 		fresh := [][]byte{[]byte("fresh")}
 		t0 := targets[0]
 		if err := e.populate(t0, fresh); err != nil {
@@ -958,6 +973,103 @@ func (e *e2e) partialRemove(c collID, rec *e2eRec, before map[string]string, log
 	e.alive[c] = rest
 	emit(*rec)
 	return true
+}
+
+// counters: the key counter of every table of the scenario (table counters are enabled)
+func (e *e2e) counters(tabs [][]byte) map[string]int64 {
+	out := map[string]int64{}
+	for _, t := range tabs {
+		n, _ := e.db.GetTableKeyCount(t)
+		out[string(t)] = n
+	}
+	return out
+}
+
+// msetAcrossTables: ONE MSET with pairs in two tables — new keys in the first table, then a pair in the second
+// table (an existing string when there is one). Each table's key counter must grow by exactly the number of
+// keys the call created in THAT table; afterwards the new keys are deleted again and the counters must be back.
+func (e *e2e) msetAcrossTables(tabs [][]byte, op int, rec *e2eRec, before map[string]string, logBefore map[collID]string, emit func(e2eRec)) {
+	ta, tb := string(tabs[0]), string(tabs[1])
+	rec.Op = "MSET across two tables"
+	rec.Targets = []string{H(tabs[0]), H(tabs[1])}
+	pairs := []collID{{"kv", ta, fmt.Sprintf("ms%da", op)}, {"kv", ta, fmt.Sprintf("ms%db", op)}}
+	last := collID{"kv", tb, fmt.Sprintf("ms%dc", op)}
+	for _, o := range e.order {
+		if o.Typ == "kv" && o.Table == tb && e.alive[o] != nil {
+			last = o
+			break
+		}
+	}
+	pairs = append(pairs, last)
+	want := map[string]int64{}
+	var args []common.KVRecord
+	for _, p := range pairs {
+		if n, err := e.db.KVExists(p.raw()); err == nil && n == 0 {
+			want[p.Table]++
+		}
+		args = append(args, common.KVRecord{Key: p.raw(), Value: []byte("msv-" + p.Table + "-" + p.RK)})
+	}
+	c0 := e.counters(tabs)
+	if err := e.db.MSet(e.tick(), args...); err != nil {
+		rec.Err = err.Error()
+	}
+	c1 := e.counters(tabs)
+	for _, t := range tabs {
+		if d := c1[string(t)] - c0[string(t)]; d != want[string(t)] {
+			rec.Logical = append(rec.Logical, fmt.Sprintf("MSET %v created %d key(s) in table %s but its key counter moved by %d (counters before %v, after %v)",
+				pairs, want[string(t)], H(t), d, c0, c1))
+		}
+	}
+	for _, p := range pairs {
+		if v, err := e.db.KVGet(p.raw()); err != nil || string(v) != "msv-"+p.Table+"-"+p.RK {
+			rec.Logical = append(rec.Logical, fmt.Sprintf("after MSET %s reads %q (%v)", p, v, err))
+		}
+	}
+	// every other collection reads as before
+	isPair := map[collID]bool{}
+	for _, p := range pairs {
+		isPair[p] = true
+	}
+	for _, o := range e.order {
+		if !isPair[o] {
+			if got := e.logical(o); got != logBefore[o] {
+				rec.Logical = append(rec.Logical, fmt.Sprintf("collection %s changed from %s to %s by an MSET on other keys", o, logBefore[o], got))
+			}
+		}
+	}
+	// take the keys this call created away again: the counters must return to where they were
+	var created [][]byte
+	for _, p := range pairs {
+		if e.alive[p] == nil {
+			created = append(created, p.raw())
+		}
+	}
+	if _, err := e.db.DelKeys(created...); err != nil {
+		rec.Logical = append(rec.Logical, "DEL of the created keys: "+err.Error())
+	}
+	c2 := e.counters(tabs)
+	for _, t := range tabs {
+		if c2[string(t)] != c0[string(t)] {
+			rec.Logical = append(rec.Logical, fmt.Sprintf("after MSET and DEL of the created keys the key counter of table %s is %d, it was %d", H(t), c2[string(t)], c0[string(t)]))
+		}
+	}
+	// only the value of an overwritten existing string may differ from the state before
+	after := e.dump()
+	for k, v := range before {
+		if nv, ok := after[k]; !isTableCounter(k) && (!ok || nv != v) && !(e.alive[last] != nil && e.owned[last][k]) {
+			rec.Logical = append(rec.Logical, fmt.Sprintf("engine key %s changed by MSET + DEL on other keys", H([]byte(k))))
+		}
+	}
+	for k := range after {
+		if _, ok := before[k]; !ok && !isTableCounter(k) {
+			rec.Logical = append(rec.Logical, fmt.Sprintf("engine key %s left behind by MSET + DEL", H([]byte(k))))
+		}
+	}
+	if e.alive[last] != nil {
+		e.alive[last] = [][]byte{[]byte("overwritten")}
+	}
+	rec.Owned, rec.MetaOwned = nil, nil
+	emit(*rec)
 }
 
 // rejectedWrite: a multi-member write on c whose LAST member is over the size limit must fail as a whole and
